@@ -11,7 +11,7 @@ META = dict(
     rule=('(a) grid programs = sink x source: sinks {tainted<T*> copy/direct/list initialisation and assignment, tainted_volatile<T*> assignment through *pp, pp[i], a struct '
           'field and an array-of-pointers cell, invoke argument, by-value struct argument, tainted<Fn> from sandbox_callback, tainted_volatile<Fn> from a callback / '
           'sandbox function address of another signature} x sources {raw T*, const T*, raw function pointer, array / std::array of raw pointers, tainted / opaque / '
-          'callback of ANOTHER sandbox type, plain struct holding a pointer, lambda, functor}; register_callback with 27 malformed signatures (no sandbox parameter, '
+          'callback of ANOTHER sandbox type, plain struct holding a pointer, lambda, functor}; raw pointers as OPERANDS of operators that return a tainted pointer (n + raw, raw + n, n - raw, p + raw, p - raw, p += raw with n a tainted / tainted_volatile integer; 25 shapes, 2 positive controls); register_callback with 27 malformed signatures (no sandbox parameter, '
           'sandbox by value / pointer / const ref, plain parameter in each position, array parameter, tainted_volatile parameter, plain / hint return, references to tainted / tainted_opaque as parameter and return, tainted and tainted_opaque wrappers of another '
           'sandbox type as parameter and as return). Every program is compiled against the model backend twice (16-bit and pointer-wide 64-bit pointer representation) and must be rejected by the compiler with RLBox compile checks ON; positive controls of the same shapes with legal sources must be '
           'accepted. (b) assign_raw_pointer on tainted and tainted_volatile and UNSAFE_accept_pointer for every address of [base-4096, base+64KiB+4096), null, the other '
@@ -59,6 +59,15 @@ def grid():
             neg.append(('tainted<%s> %s <- raw %s' % (pt, sk, src), sc % (pt, src)))
         neg.append(('tainted_volatile<%s> cell <- raw %s' % (pt, src), '*%s = %s;' % (cell, src)))
         pos.append(('tainted<%s> copy-init <- nullptr' % pt, 'tn<%s> t = nullptr; *%s = t;' % (pt, cell)))
+    # a raw pointer as an OPERAND: an operator must not hand back a tainted pointer made from it (n + raw, raw + n, p - raw, ...)
+    for wk, decl, w in [('tainted<int>', 'tn<int> ti = 1; ', 'ti'), ('tainted<unsigned long>', 'tn<unsigned long> ti = 1; ', 'ti'),
+                        ('tainted_volatile<int>', 'auto pi_ = rlbox::sandbox_reinterpret_cast<int*>(tgood); ', '(*pi_)')]:
+        for ek, e in [('n + raw', '%s + raw'), ('n - raw', '%s - raw'), ('raw + n', 'raw + %s'), ('n + raw const', '%s + craw'), ('n + raw struct pointer', '%s + raws'), ('n + raw char pointer', '%s + rawc')]:
+            neg.append(('operator result <- %s, n is %s' % (ek, wk), decl + 'auto t = ' + (e % w) + '; (void)t;'))
+    for ek, e in [('p + raw', 'tgood + raw'), ('p - raw', 'tgood - raw'), ('p += raw', 'tgood += raw'), ('p = n + raw', 'tgood = tn<int>(1) + raw'), ('*pp + raw', '*pp + raw')]:
+        neg.append(('operator result <- %s' % ek, 'auto t = (' + e + '); (void)t;'))
+    pos.append(('operator result <- n + tainted pointer', 'tn<int> ti = 1; auto t = ti + tgood; (void)t;'))
+    pos.append(('operator result <- tainted pointer + n', 'tn<int> ti = 1; auto t = tgood + ti; (void)t;'))
     # arrays of raw pointers
     neg.append(('array-of-pointers cell <- C array of raw pointers', '*pa = rawarr;'))
     neg.append(('array-of-pointers cell <- std::array of raw pointers', '*pa = rawstd;'))
